@@ -19,6 +19,7 @@ RULE = (
     "sign, scales 1e-6..1e6, dyadic/decimal/non-dividing steps, range/precision <= 1e5). A case is a block of inputs. "
     "Non-trivial input = two simultaneous defects (precedence matters) or a well-formed range that is an exact multiple "
     "of the precision; distinct by input."
+    " A third of the array-typed specifications are write-protected; the others are changed by the caller after construction (grids and reported bounds must stay); the caller's specification is compared before / after; unsigned-integer bounds, a precision given as a 2-D row, coarse steps (10-1e5) with ranges just short of a whole number of steps."
 )
 ASSUMPTIONS = [
     "negative precisions are neither documented as errors nor meaningful: not generated",
